@@ -429,6 +429,7 @@ class BSession:
                         self.fail("C07-spurious", f"file {fi} named by a flush without a conflict (modified={self.modified.get(fi)}, ext_after={self.ext_after.get(fi)})")
                     if not self.modified.get(fi) and self.wrote_during.get(fi):
                         self.fail("C07-readonly-written", f"file {fi} was only read in the buffer but was written")
+                        self.fail("C17-session", f"file {fi} was only read inside buffered contexts, yet it was written (or created)")
                     if changed and not named and not self.ext_after.get(fi):
                         d_ = contents[fi]
                         d_ = ([] if self.kind == "list" else {}) if d_ is MISSING else d_
@@ -477,6 +478,41 @@ class BSession:
             self.fail("C15-capacity", f"capacity {self.cls.get_buffer_capacity()} after all contexts exited, expected {self.exp_cap}")
 
     cap_changed_at_top = False
+
+    def run_script(self, script):
+        for oi, fi in enumerate(self.binding):
+            self.s_new(oi, fi)
+        for fi in range(len(self.files)):
+            self.s_ext_init(fi, [1] if self.kind == "list" else {"a": 1})
+        for st in script:
+            if st[0] == "ext":
+                self.s_ext(st[1], st[2])
+            elif st[0] == "op":
+                self.s_op(st[1], st[2], st[3])
+            elif st[0] == "ec":
+                self.s_ctx("ec", cap=st[1])
+            elif st[0] == "xc":
+                self.s_ctx("xc")
+            elif st[0] in ("eo", "xo"):
+                self.s_ctx(st[0], st[1])
+            elif st[0] == "cap":
+                self.s_ctx("cap", cap=st[1])
+        while self.anything_active():
+            for oi in list(self.obj_depth):
+                while self.obj_depth.get(oi, 0) > 0:
+                    self.s_ctx("xo", oi)
+            while self.ctx_depth > 0:
+                self.s_ctx("xc")
+        for oi in range(len(self.objs)):
+            res = self.call(lambda: self.objs[oi]())
+            d = self.disk(self.binding[oi])
+            from k1 import strict_eq
+            if res[0] != "ok":
+                self.fail("C07-post", f"object {oi} unusable after all contexts exited: {res}")
+            elif d is not MISSING and not strict_eq(res[1], d):
+                self.fail("C07-post", f"object {oi} shows {jsonable(res[1])} but disk holds {jsonable(d)}")
+        if self.cls.get_buffer_capacity() != self.exp_cap:
+            self.fail("C15-capacity", f"capacity {self.cls.get_buffer_capacity()} after all contexts exited, expected {self.exp_cap}")
 
     def s_ext_init(self, fi, v):
         with open(self.files[fi], "wb") as f:
@@ -543,7 +579,16 @@ class BSession:
                 self.s_op(oi, path, op)
             elif k < p.get("w_op", 0.55) + p.get("w_ext", 0.0):
                 self.s_ext(self.g.r.randrange(len(self.files)), self.g.container(self.kind, 2))
-            elif k < p.get("w_op", 0.55) + p.get("w_ext", 0.0) + p.get("w_cap", 0.0):
+            elif k < p.get("w_op", 0.55) + p.get("w_ext", 0.0) + p.get("w_reorder", 0.0):
+                # outside writer stores the SAME content with another key order (only while the file is not buffered)
+                fi = self.g.r.randrange(len(self.files))
+                cur = self.disk(fi)
+                if cur is not MISSING and isinstance(cur, dict) and len(cur) > 1 and not self.anything_active():
+                    ks = list(cur)
+                    self.g.r.shuffle(ks)
+                    self.s_ext(fi, {k_: cur[k_] for k_ in ks})
+                    self.ext_seen = False      # same logical content: the plain oracle stays applicable
+            elif k < p.get("w_op", 0.55) + p.get("w_ext", 0.0) + p.get("w_reorder", 0.0) + p.get("w_cap", 0.0):
                 cap = self.g.r.choice(p.get("caps", [0, 1, 2, 30, 80, 10 ** 6]))
                 if self.ctx_depth == 0:
                     self.cap_changed_at_top = True
@@ -615,8 +660,89 @@ BPROFILES = {
     "C07": {"files": 2, "binding": [0, 0, 1], "w_op": 0.5, "w_ext": 0.12, "reads": 0.4, "ctx_caps": [None, None, 10 ** 6]},
     "C07cap": {"files": 2, "binding": [0, 0, 1], "w_op": 0.5, "w_ext": 0.1, "w_cap": 0.06, "reads": 0.3, "ctx_caps": [None, 0, 1, 50], "caps": [0, 1, 40, 10 ** 6]},
     "C15": {"files": 2, "binding": [0, 0, 1], "w_op": 0.5, "w_ext": 0.04, "w_cap": 0.1, "reads": 0.3, "ctx_caps": [None, 0, 1, 2, 25, 60, 10 ** 6], "caps": [0, 1, 2, 20, 40, 10 ** 6]},
-    "C17": {"files": 2, "binding": [0, 0, 1], "w_op": 0.6, "reads": 1.0, "ctx_caps": [None, None, 10 ** 6]},
+    "C17": {"files": 2, "binding": [0, 0, 1], "w_op": 0.55, "reads": 1.0, "ctx_caps": [None, None, 10 ** 6], "init_p": 0.65, "w_reorder": 0.12},
 }
+
+
+def grid_scripts(kind, strat, seed, tier):
+    """Small-scope enumeration for C07 / C15: context shapes x per-file (access, outside change) assignments."""
+    import itertools
+    rnd = random.Random(seed)
+    small = 10 if strat == "Ser" else 0
+    big = 10 ** 6
+    shapes = {
+        "cls": [("ec", None)], "obj": [("eo", 0), ("eo", 1)], "obj_in_cls": [("ec", None), ("eo", 0), ("eo", 1)],
+        "big_in_small": [("ec", small), ("ec", big)], "big_after_setcap_small": [("cap", small), ("ec", big)],
+        "small_in_big": [("ec", big), ("ec", small)],
+    }
+    combos = list(itertools.product(["mod", "read", "none"], ["before", "after", "never"], repeat=2))
+    if tier == "quick":
+        combos = rnd.sample(combos, 14) + [("mod", "after", "mod", "never"), ("mod", "after", "mod", "after"), ("read", "after", "mod", "never"),
+                                           ("mod", "never", "mod", "after")]
+    mod_op = (lambda i: ("LAppend", "v" * 24 + str(i))) if kind == "list" else (lambda i: ("DSet", "k", "v" * 24 + str(i)))
+    read_op = ("LCall",) if kind == "list" else ("DCall",)
+    outv = (lambda i: ["outside", i]) if kind == "list" else (lambda i: {"outside": i})
+    for shape, enters in shapes.items():
+        for a0, e0, a1, e1 in combos:
+            sc = []
+            for fi, e in ((0, e0), (1, e1)):
+                if e == "before":
+                    sc.append(("ext", fi, outv(fi)))
+            sc += list(enters)
+            for fi, a in ((0, a0), (1, a1)):
+                if a == "mod":
+                    sc.append(("op", fi, [], mod_op(fi)))
+                elif a == "read":
+                    sc.append(("op", fi, [], read_op))
+            for fi, e in ((0, e0), (1, e1)):
+                if e == "after":
+                    sc.append(("ext", fi, outv(fi + 10)))
+            # a second modification after the outside change (what a forced flush must not forget)
+            if a0 == "mod" and rnd.random() < 0.5:
+                sc.append(("op", 0, [], mod_op(7)))
+            for en in reversed(enters):
+                if en[0] == "ec":
+                    sc.append(("xc",))
+                elif en[0] == "eo":
+                    sc.append(("xo", en[1]))
+            sc.append(("op", 0, [], read_op))
+            sc.append(("op", 1, [], read_op))
+            yield f"{shape}:{a0}/{e0},{a1}/{e1}", sc
+
+
+def run_grid(seed, tier, classes=None):
+    ns = import_library()
+    cj = ns.cj
+    classes = classes or ([cj.BufferedJSONDict, cj.MemoryBufferedJSONDict] if tier == "quick" else
+                          [cj.BufferedJSONDict, cj.MemoryBufferedJSONDict, cj.BufferedJSONList, cj.MemoryBufferedJSONList])
+    tmp = tempfile.mkdtemp(prefix="verif_kgrid_")
+    out = {"cases": [], "logs": [], "oracle": [], "stats": {}, "classes": {}, "meta": []}
+    try:
+        i = 0
+        for cls in classes:
+            probe = BSession(ns, cls, 0, {"files": 2, "binding": [0, 1]}, tmp)
+            for name, sc in grid_scripts(probe.kind, probe.strat, seed, tier):
+                s = BSession(ns, cls, seed * 100003 + i, {"files": 2, "binding": [0, 1]}, tmp)
+                s.reset_class()
+                try:
+                    s.run_script(sc)
+                except Exception:  # noqa
+                    import traceback
+                    s.fails.append({"oracle": "harness", "step": len(s.log), "detail": traceback.format_exc()[-1500:]})
+                finally:
+                    s.reset_class()
+                out["cases"].append(s.coq_case())
+                out["logs"].append(s.log)
+                out["meta"].append({"session": i, "class": cls.__name__, "seed": s.seed, "strategy": s.strat, "script": name})
+                for f in s.fails:
+                    f = dict(f)
+                    f.update(session=i, cls=cls.__name__, seed=s.seed, script=name)
+                    out["oracle"].append(f)
+                out["classes"][cls.__name__] = out["classes"].get(cls.__name__, 0) + 1
+                i += 1
+    finally:
+        shutil.rmtree(tmp, ignore_errors=True)
+    return out
 
 
 def buffered_classes(ns):
